@@ -82,11 +82,17 @@ ClsPaths(cx, e, st) ==
   IF st.pos >= N(cx) THEN <<>>
   ELSE IF ClassHas(e.c, At(cx.t, st.pos)) # e.neg THEN <<Adv(st, 1)>> ELSE <<>>
 
-RngPaths(cx, e, st) ==
-  LET k == Len(e.b) IN                      \* well-formed ranges have Len(a) = Len(b)
-  IF st.pos + k > N(cx) THEN <<>>
-  ELSE LET sl == Slice(cx.t, st.pos, st.pos + k)
-       IN IF LexLE(e.a, sl) /\ LexLE(sl, e.b) THEN <<Adv(st, k)>> ELSE <<>>
+(* a range 'a' to 'b': the slice of Len(b) bytes lexicographically between.  *)
+(* End points of different lengths are outside the documents; the engine     *)
+(* then tries the lengths from Len(b) down to Len(a) -- transcribed.         *)
+RECURSIVE RngTry(_, _, _, _)
+RngTry(cx, e, st, k) ==
+  IF k < Len(e.a) \/ k < 1 THEN <<>>
+  ELSE IF st.pos + k <= N(cx)
+          /\ LexLE(e.a, Slice(cx.t, st.pos, st.pos + k)) /\ LexLE(Slice(cx.t, st.pos, st.pos + k), e.b)
+       THEN <<Adv(st, k)>>
+  ELSE RngTry(cx, e, st, k - 1)
+RngPaths(cx, e, st) == RngTry(cx, e, st, Len(e.b))
 
 (* whole file/line/word: transcribed from the engine; the documents give no *)
 (* rule for starting positions that are not the start of the unit, so these *)
